@@ -285,3 +285,409 @@ Lemma concat_length_bound docs : short_docs docs ->
 Proof.
   induction 1 as [|d r Hd _ IH]; [cbn; lia|]. cbn [concat length]. rewrite app_length. lia.
 Qed.
+
+(* ================= 5. the runs of the sorted triples are the per-term occurrence lists ================= *)
+Section SortedRuns.
+Variables (beg : N) (docs : list (list N)).
+Let flat := gather false beg docs.
+Let S := stable_sort_by_term flat.
+
+Lemma run_is_tp t l : In (t, l) (runs S) -> l = tp_from beg docs t.
+Proof.
+  intro Hin. destruct (sort_props flat) as [SS P]. fold S in SS, P.
+  pose proof (runs_keys_sorted S SS) as K. apply sorted_lt_nodup in K.
+  pose proof (filter_groups t l (runs S) K Hin) as F. rewrite runs_concat in F.
+  assert (El : l = map dp (filter (fun x => t_term x =? t) S)) by (rewrite F; symmetry; apply map_dp_tag).
+  symmetry. rewrite El. apply sorted_perm_eq.
+  - apply sorted2_SS, tp_sorted.
+  - apply (SS_same_term t); [apply SS_filter; exact SS|].
+    apply Forall_forall. intros x Hx. apply filter_In in Hx. destruct Hx as [_ Hx]. apply N.eqb_eq. exact Hx.
+  - unfold flat in P. rewrite <- (gather_filter t docs beg).
+    apply Permutation_map, Permutation_filter'. exact P.
+Qed.
+
+Lemma runs_eq : runs S = map (fun t => (t, tp_from beg docs t)) (map fst (runs S)).
+Proof.
+  rewrite map_map. rewrite <- (map_id (runs S)) at 1. apply map_ext_in.
+  intros [t l] Hin. cbn [fst]. f_equal. apply run_is_tp. exact Hin.
+Qed.
+
+Lemma run_keys t : In t (map fst (runs S)) <-> In t (concat docs).
+Proof.
+  split.
+  - intro H. apply in_map_iff in H. destruct H as ([t' l] & E & Hin). cbn [fst] in E. subst t'.
+    pose proof (run_is_tp t l Hin) as El.
+    pose proof (runs_nonempty S) as Hne. rewrite Forall_forall in Hne. specialize (Hne _ Hin). cbn [snd] in Hne.
+    destruct (in_dec N.eq_dec t (concat docs)) as [Hi|Hn]; [exact Hi|].
+    exfalso. apply Hne. rewrite El. apply tp_nil_iff. exact Hn.
+  - intro H. destruct (in_dec N.eq_dec t (map fst (runs S))) as [Hi|Hn]; [exact Hi|]. exfalso.
+    pose proof (filter_groups_absent t (runs S) Hn) as F. rewrite runs_concat in F.
+    destruct (sort_props flat) as [_ P]. fold S in P.
+    pose proof (Permutation_filter' (fun x => t_term x =? t) _ _ P) as PF. rewrite F in PF.
+    apply Permutation_sym, Permutation_nil in PF.
+    apply (f_equal (map dp)) in PF. unfold flat in PF. rewrite gather_filter in PF. cbn [map] in PF.
+    apply tp_nil_iff in PF. contradiction.
+Qed.
+End SortedRuns.
+
+(* ================= 6. term_starts / take_idx / slices_by_bounds on grouped data ================= *)
+Definition termcol (gs : list group) : list N := map t_term (concat (map untag gs)).
+
+Lemma termcol_cons t l gs : termcol ((t, l) :: gs) = repeat t (length l) ++ termcol gs.
+Proof.
+  unfold termcol. cbn [map concat]. rewrite map_app. f_equal. unfold untag. cbn [fst snd].
+  induction l as [|q l IH]; [reflexivity|]. cbn [map length repeat]. now rewrite IH.
+Qed.
+
+Lemma tsf_cons2 i x y t :
+  term_starts_from i (x :: y :: t) =
+  if x <? y then (i + 1) :: term_starts_from (i + 1) (y :: t) else term_starts_from (i + 1) (y :: t).
+Proof. reflexivity. Qed.
+
+Lemma tsf_run_end t : forall n off, term_starts_from off (repeat t n) = [].
+Proof.
+  induction n as [|n IH]; intros off; [reflexivity|]. destruct n as [|n]; [reflexivity|].
+  change (repeat t (S (S n))) with (t :: t :: repeat t n). rewrite tsf_cons2, N.ltb_irrefl. apply (IH (off + 1)).
+Qed.
+
+Lemma tsf_run t y rest : t < y -> forall n off, n <> O ->
+  term_starts_from off (repeat t n ++ y :: rest) = (off + N.of_nat n) :: term_starts_from (off + N.of_nat n) (y :: rest).
+Proof.
+  intros Hty. induction n as [|n IH]; intros off Hn; [congruence|]. destruct n as [|n].
+  - change (repeat t 1 ++ y :: rest) with (t :: y :: rest). rewrite tsf_cons2.
+    replace (t <? y) with true by (symmetry; apply N.ltb_lt; exact Hty).
+    replace (off + N.of_nat 1) with (off + 1) by lia. reflexivity.
+  - change (repeat t (S (S n)) ++ y :: rest) with (t :: t :: (repeat t n ++ y :: rest)).
+    rewrite tsf_cons2, N.ltb_irrefl.
+    change (t :: repeat t n ++ y :: rest) with (repeat t (S n) ++ y :: rest).
+    rewrite IH by discriminate. replace (off + 1 + N.of_nat (S n)) with (off + N.of_nat (S (S n))) by lia. reflexivity.
+Qed.
+
+Lemma termcol_head t q l gs : termcol ((t, q :: l) :: gs) = t :: (repeat t (length l) ++ termcol gs).
+Proof. rewrite termcol_cons. reflexivity. Qed.
+
+Lemma tsf_groups : forall (gs : list group) off, gs <> [] ->
+  Forall (fun g : group => snd g <> []) gs -> Sorted N.lt (map fst gs) ->
+  off :: term_starts_from off (termcol gs) = ST off (map snd gs).
+Proof.
+  induction gs as [|[t l] gs IH]; intros off Hne Hn Hs; [congruence|].
+  inversion Hn as [|? ? Hl Hn']; subst. cbn [snd] in Hl. cbn [map snd ST]. f_equal.
+  rewrite termcol_cons. destruct gs as [|[t' l'] gs'].
+  - unfold termcol. cbn [map concat ST]. rewrite app_nil_r. apply tsf_run_end.
+  - inversion Hn' as [|? ? Hl' _]; subst. cbn [snd] in Hl'. destruct l' as [|q' l']; [congruence|].
+    cbn [map fst] in Hs. inversion Hs as [|? ? Hs' Hhd]; subst. inversion Hhd; subst.
+    rewrite termcol_head.
+    assert (Hln : length l <> O) by (destruct l; [congruence|discriminate]).
+    rewrite (tsf_run t t' _ H0 _ _ Hln).
+    rewrite <- (termcol_head t' q' l' gs'). apply IH; [discriminate|assumption|assumption].
+Qed.
+
+Lemma take_idx_groups : forall (gs : list group) pre, Forall (fun g : group => snd g <> []) gs ->
+  take_idx (pre ++ termcol gs) (ST (N.of_nat (length pre)) (map snd gs)) = map fst gs.
+Proof.
+  induction gs as [|[t l] gs IH]; intros pre Hn; [reflexivity|].
+  inversion Hn as [|? ? Hl Hn']; subst. cbn [snd] in Hl. cbn [map snd fst ST]. rewrite take_idx_cons. f_equal.
+  - rewrite Nat2N.id, app_nth2 by lia. rewrite Nat.sub_diag. destruct l as [|q l]; [congruence|].
+    rewrite termcol_head. reflexivity.
+  - rewrite termcol_cons, app_assoc. specialize (IH (pre ++ repeat t (length l)) Hn').
+    rewrite app_length, repeat_length, Nat2N.inj_add in IH. exact IH.
+Qed.
+
+Lemma prefix_sums_head acc l : exists tl, prefix_sums acc l = acc :: tl.
+Proof. destruct l; eexists; reflexivity. Qed.
+
+Lemma slices_concat : forall (ws : list (list N)) ids pre, length ids = length ws ->
+  slices_by_bounds (pre ++ concat ws) ids (prefix_sums (N.of_nat (length pre)) (map (fun w => N.of_nat (length w)) ws))
+  = combine ids ws.
+Proof.
+  induction ws as [|w ws IH]; intros ids pre Hl.
+  - destruct ids; [reflexivity|discriminate].
+  - destruct ids as [|id ids]; [discriminate|]. cbn [length] in Hl. cbn [map prefix_sums combine].
+    destruct (prefix_sums_head (N.of_nat (length pre) + N.of_nat (length w)) (map (fun w => N.of_nat (length w)) ws)) as [tl E].
+    rewrite E. cbn [slices_by_bounds]. rewrite <- E. f_equal.
+    + f_equal. unfold slice_nat. rewrite <- Nat2N.inj_add, !Nat2N.id.
+      replace (length pre + length w - length pre)%nat with (length w) by lia.
+      rewrite skipn_app_len. cbn [concat]. apply firstn_app_len.
+    + specialize (IH ids (pre ++ w)). rewrite app_length, Nat2N.inj_add in IH. cbn [concat].
+      rewrite app_assoc. apply IH. lia.
+Qed.
+
+Lemma lookup_map_keys {A} (f : N -> A) t : forall ts,
+  lookup t (map (fun k => (k, f k)) ts) = if mem_n t ts then Some (f t) else None.
+Proof.
+  induction ts as [|k ts IH]; [reflexivity|]. cbn [map lookup mem_n existsb].
+  destruct (N.eqb_spec t k) as [->|Hne]; [reflexivity|]. exact IH.
+Qed.
+
+Lemma mem_n_in t l : mem_n t l = true <-> In t l.
+Proof.
+  unfold mem_n. rewrite existsb_exists. split.
+  - intros (x & Hx & E). apply N.eqb_eq in E. now subst.
+  - intro H. exists t. split; [exact H|apply N.eqb_refl].
+Qed.
+
+(* ================= 7. the postings of one batch ================= *)
+Lemma MAX_POSN_val : MAX_POSN = 262143. Proof. reflexivity. Qed.
+
+Lemma encode_b_empty : encode_b [] [] [0] = Done ([], [0; 1]).
+Proof. vm_compute. reflexivity. Qed.
+
+Definition batch_posts (beg : N) (docs : list (list N)) (ts : list N) : list (N * list N) :=
+  map (fun t => (t, encode_spec (tp_from beg docs t))) ts.
+
+Lemma batch_posts_gen beg docs : short_docs docs -> beg + N.of_nat (length docs) <= 2 ^ 28 ->
+  let sorted := stable_sort_by_term (gather false beg docs) in
+  exists ts, Sorted N.lt ts /\ (forall t, In t ts <-> In t (concat docs)) /\
+    exists nb,
+    encode_b (map t_doc sorted) (map t_posn sorted) (term_starts (map t_term sorted)) =
+      Done (concat (map (fun t => encode_spec (tp_from beg docs t)) ts), nb) /\
+    match concat (map (fun t => encode_spec (tp_from beg docs t)) ts) with
+    | [] => []
+    | enc => slices_by_bounds enc (take_idx (map t_term sorted) (term_starts (map t_term sorted))) nb
+    end = batch_posts beg docs ts.
+Proof.
+  intros Hs Hn sorted.
+  destruct (sort_props (gather false beg docs)) as [SS P]. fold sorted in SS, P.
+  set (gs := runs sorted). set (ts := map fst gs).
+  assert (K : Sorted N.lt ts) by (apply runs_keys_sorted; exact SS).
+  assert (Hkeys : forall t, In t ts <-> In t (concat docs)) by (intro t; apply run_keys).
+  assert (Egs : gs = map (fun t => (t, tp_from beg docs t)) ts) by apply runs_eq.
+  assert (ES : sorted = concat (map untag gs)) by (symmetry; apply runs_concat).
+  assert (Hne : Forall (fun g : group => snd g <> []) gs) by apply runs_nonempty.
+  exists ts. split; [exact K|]. split; [exact Hkeys|].
+  assert (Ets : map fst gs = ts) by reflexivity.
+  clearbody ts. clearbody gs. clearbody sorted.
+  assert (Hcase : gs = [] \/ gs <> []) by (destruct gs; [left; reflexivity|right; discriminate]).
+  destruct Hcase as [Eg|Hgs].
+  - (* no tokens at all *)
+    rewrite Eg in Ets. cbn [map] in Ets. subst ts.
+    rewrite Eg in ES. cbn [map concat] in ES. rewrite ES.
+    cbn [map concat term_starts term_starts_from].
+    exists [0; 1]. split; [exact encode_b_empty|reflexivity].
+  - set (segs := map snd gs).
+    assert (Esegs : segs = map (fun t => tp_from beg docs t) ts).
+    { unfold segs. rewrite Egs at 1. rewrite map_map. reflexivity. }
+    assert (Hcols : map dp sorted = concat segs) by (rewrite ES; apply map_dp_groups).
+    assert (Hd : map t_doc sorted = map fst (concat segs)).
+    { rewrite <- Hcols, map_map. reflexivity. }
+    assert (Hp : map t_posn sorted = map snd (concat segs)).
+    { rewrite <- Hcols, map_map. reflexivity. }
+    assert (Hst : term_starts (map t_term sorted) = starts segs).
+    { rewrite starts_ST. unfold term_starts. rewrite ES. apply (tsf_groups gs 0); try assumption. rewrite Ets. exact K. }
+    assert (Hsegs : Forall (fun s => sorted2 s /\ bounded s /\ s <> []) segs).
+    { rewrite Esegs at 1. rewrite Forall_map. apply Forall_forall. intros t Ht. split; [apply tp_sorted|].
+      split; [apply tp_bounded; assumption|]. rewrite tp_nil_iff. intro Hc. apply Hc. apply Hkeys. exact Ht. }
+    assert (Hlen : N.of_nat (length (concat segs)) < 2 ^ 62).
+    { rewrite <- Hcols, map_length. rewrite <- (Permutation_length P), gather_length.
+      pose proof (concat_length_bound docs Hs). rewrite pow62. pows. nia. }
+    assert (Hsne : segs <> []) by (unfold segs; destruct gs; [congruence|discriminate]).
+    pose proof (encode_b_correct segs Hsegs Hsne Hlen) as EB. cbn zeta in EB.
+    rewrite Hd, Hp, Hst, EB. unfold boundaries_spec.
+    assert (Eenc : map encode_spec segs = map (fun t => encode_spec (tp_from beg docs t)) ts).
+    { rewrite Esegs, map_map. reflexivity. }
+    rewrite Eenc. eexists. split; [reflexivity|].
+    assert (Hids : take_idx (map t_term sorted) (starts segs) = ts).
+    { rewrite starts_ST, ES, <- Ets. apply (take_idx_groups gs []). exact Hne. }
+    rewrite Hids.
+    assert (Hsl : slices_by_bounds (concat (map (fun t => encode_spec (tp_from beg docs t)) ts)) ts
+               (prefix_sums 0 (map (fun s => N.of_nat (length (encode_spec s))) segs)) = batch_posts beg docs ts).
+    { pose proof (slices_concat (map (fun t => encode_spec (tp_from beg docs t)) ts) ts []) as SL.
+      cbn [app length] in SL. change (N.of_nat 0) with 0 in SL. rewrite map_map in SL.
+      rewrite Esegs, map_map. rewrite SL by (now rewrite map_length).
+      unfold batch_posts. clear. induction ts as [|t ts IH]; [reflexivity|]. cbn [map combine]. now rewrite IH. }
+    destruct (concat (map (fun t => encode_spec (tp_from beg docs t)) ts)) eqn:Ec; [|exact Hsl].
+    exfalso. destruct ts as [|t0 ts0]; [apply Hgs; rewrite Egs; reflexivity|].
+    cbn [map concat] in Ec. apply app_eq_nil in Ec. destruct Ec as [Ec _].
+    revert Ec. apply encode_spec_nonempty. rewrite tp_nil_iff. intro Hc. apply Hc, Hkeys. left. reflexivity.
+Qed.
+
+(* ================= 8. document lengths: the -diff(posns)+1 scan ================= *)
+Fixpoint flatP (docs : list (list N)) : list N :=
+  match docs with [] => [] | d :: r => map snd (enum_tokens 0 d) ++ flatP r end.
+Fixpoint flatD (i : N) (docs : list (list N)) : list N :=
+  match docs with [] => [] | d :: r => repeat i (length d) ++ flatD (i + 1) r end.
+
+Lemma gather_P : forall docs b, map t_posn (gather false b docs) = flatP docs.
+Proof.
+  induction docs as [|d r IH]; intros b; [reflexivity|].
+  rewrite gather_false_cons, map_app, IH. cbn [flatP]. f_equal. rewrite map_map. reflexivity.
+Qed.
+
+Lemma map_const_enum {B} (c : B) : forall d j, map (fun _ : N * N => c) (enum_tokens j d) = repeat c (length d).
+Proof. induction d as [|x d IH]; intros j; [reflexivity|]. cbn [enum_tokens map length repeat]. now rewrite IH. Qed.
+
+Lemma gather_D beg : forall docs i, map (fun x => t_doc x - beg) (gather false (beg + i) docs) = flatD i docs.
+Proof.
+  induction docs as [|d r IH]; intros i; [reflexivity|].
+  rewrite gather_false_cons, map_app. replace (beg + i + 1) with (beg + (i + 1)) by lia. rewrite IH.
+  cbn [flatD]. f_equal. rewrite map_map. cbn [t_doc fst snd].
+  replace (beg + i - beg) with i by lia. apply map_const_enum.
+Qed.
+
+Lemma dl_scan_cons2 p q pt d dt dense :
+  dl_scan (p :: q :: pt) (d :: dt) dense =
+  dl_scan (q :: pt) dt
+    (if (0 <? - (Z.of_N q - Z.of_N p) + 1)%Z then list_set dense (N.to_nat d) (Z.to_N (- (Z.of_N q - Z.of_N p) + 1)) else dense).
+Proof. reflexivity. Qed.
+Lemma dl_scan_one p D dense : dl_scan [p] D dense = dense.
+Proof. destruct D; reflexivity. Qed.
+
+Lemma enum_tokens_cons j x d : enum_tokens j (x :: d) = (x, j) :: enum_tokens (j + 1) d.
+Proof. reflexivity. Qed.
+
+(* inside one document nothing is written; at its last token, followed by offset 0 of the next
+   non-empty document, the length is written *)
+Lemma scan_doc' i j rp rd : forall d p0 dense,
+  dl_scan (p0 :: map snd (enum_tokens (p0 + 1) d) ++ 0 :: rp) (i :: repeat i (length d) ++ j :: rd) dense =
+  dl_scan (0 :: rp) (j :: rd) (list_set dense (N.to_nat i) (p0 + 1 + N.of_nat (length d))).
+Proof.
+  induction d as [|y d IH]; intros p0 dense.
+  - cbn [enum_tokens map app length repeat]. rewrite dl_scan_cons2.
+    replace (0 <? - (Z.of_N 0 - Z.of_N p0) + 1)%Z with true by (symmetry; apply Z.ltb_lt; lia).
+    do 2 f_equal. lia.
+  - cbn [enum_tokens map snd length repeat app]. rewrite dl_scan_cons2.
+    replace (0 <? - (Z.of_N (p0 + 1) - Z.of_N p0) + 1)%Z with false by (symmetry; apply Z.ltb_ge; lia).
+    rewrite IH. do 2 f_equal. lia.
+Qed.
+
+Lemma scan_doc i j rp rd d dense : d <> [] ->
+  dl_scan (map snd (enum_tokens 0 d) ++ 0 :: rp) (repeat i (length d) ++ j :: rd) dense =
+  dl_scan (0 :: rp) (j :: rd) (list_set dense (N.to_nat i) (N.of_nat (length d))).
+Proof.
+  destruct d as [|x d]; [congruence|]. intros _. cbn [enum_tokens map snd length repeat app].
+  rewrite scan_doc'. do 2 f_equal. lia.
+Qed.
+
+Lemma scan_last' i : forall d p0 dense,
+  dl_scan (p0 :: map snd (enum_tokens (p0 + 1) d)) (i :: repeat i (length d)) dense = dense.
+Proof.
+  induction d as [|y d IH]; intros p0 dense; [reflexivity|].
+  cbn [enum_tokens map snd length repeat]. rewrite dl_scan_cons2.
+  replace (0 <? - (Z.of_N (p0 + 1) - Z.of_N p0) + 1)%Z with false by (symmetry; apply Z.ltb_ge; lia).
+  apply IH.
+Qed.
+
+Lemma scan_last i d dense : dl_scan (map snd (enum_tokens 0 d)) (repeat i (length d)) dense = dense.
+Proof. destruct d as [|x d]; [reflexivity|]. cbn [enum_tokens map snd length repeat]. apply scan_last'. Qed.
+
+Definition finish (P D : list N) (dense : list N) : list N :=
+  match rev D, rev P with
+  | dlast :: _, plast :: _ => list_set dense (N.to_nat dlast) (plast + 1)
+  | _, _ => dense
+  end.
+Lemma compute_doc_lens_finish P D n : compute_doc_lens P D n = finish P D (dl_scan P D (repeat 0 n)).
+Proof. reflexivity. Qed.
+
+Lemma finish_snoc P p D d dense : finish (P ++ [p]) (D ++ [d]) dense = list_set dense (N.to_nat d) (p + 1).
+Proof. unfold finish. rewrite !rev_unit. reflexivity. Qed.
+
+Lemma finish_app A B A' B' dense : B <> [] -> B' <> [] -> finish (A ++ B) (A' ++ B') dense = finish B B' dense.
+Proof.
+  intros HB HB'. destruct (exists_last HB) as (b & x & ->). destruct (exists_last HB') as (b' & x' & ->).
+  rewrite !app_assoc, !finish_snoc. reflexivity.
+Qed.
+
+Lemma enum_tokens_snoc : forall d j x, enum_tokens j (d ++ [x]) = enum_tokens j d ++ [(x, j + N.of_nat (length d))].
+Proof.
+  induction d as [|y d IH]; intros j x.
+  - cbn [app enum_tokens length]. now rewrite N.add_0_r.
+  - cbn [app enum_tokens length]. rewrite IH. cbn [app]. replace (j + 1 + N.of_nat (length d)) with (j + N.of_nat (S (length d))) by lia. reflexivity.
+Qed.
+
+Lemma repeat_snoc {A} (c : A) n : repeat c (S n) = repeat c n ++ [c].
+Proof. induction n as [|n IH]; [reflexivity|]. cbn [repeat app] in *. now rewrite <- IH. Qed.
+
+Lemma finish_one i d dense : d <> [] ->
+  finish (map snd (enum_tokens 0 d)) (repeat i (length d)) dense = list_set dense (N.to_nat i) (N.of_nat (length d)).
+Proof.
+  intro Hne. destruct (exists_last Hne) as (d' & x & ->).
+  rewrite enum_tokens_snoc, map_app, app_length. cbn [map snd length].
+  replace (length d' + 1)%nat with (S (length d')) by lia. rewrite repeat_snoc, finish_snoc. f_equal. lia.
+Qed.
+
+Fixpoint set_all (i : N) (docs : list (list N)) (dense : list N) : list N :=
+  match docs with
+  | [] => dense
+  | d :: r => set_all (i + 1) r (match d with [] => dense | _ => list_set dense (N.to_nat i) (N.of_nat (length d)) end)
+  end.
+
+Lemma flatP_head : forall r q rp, flatP r = q :: rp -> q = 0.
+Proof.
+  induction r as [|d r IH]; intros q rp H; [discriminate|]. cbn [flatP] in H.
+  destruct d as [|x d]; [exact (IH _ _ H)|]. cbn [enum_tokens map snd app] in H. congruence.
+Qed.
+Lemma flatPD_length : forall r i, length (flatP r) = length (flatD i r).
+Proof.
+  induction r as [|d r IH]; intros i; [reflexivity|]. cbn [flatP flatD].
+  rewrite !app_length, map_length, repeat_length, (IH (i + 1)). f_equal.
+  generalize 0. induction d as [|x d IHd]; intros j; [reflexivity|]. cbn [enum_tokens length]. now rewrite IHd.
+Qed.
+Lemma set_all_empty : forall r i dense, flatP r = [] -> set_all i r dense = dense.
+Proof.
+  induction r as [|d r IH]; intros i dense H; [reflexivity|]. cbn [flatP] in H.
+  destruct d as [|x d]; [|discriminate]. cbn [set_all]. apply IH. exact H.
+Qed.
+
+Lemma cdl_correct : forall docs i dense,
+  finish (flatP docs) (flatD i docs) (dl_scan (flatP docs) (flatD i docs) dense) = set_all i docs dense.
+Proof.
+  induction docs as [|d r IH]; intros i dense; [reflexivity|].
+  destruct d as [|x d'].
+  - cbn [flatP flatD set_all enum_tokens map length repeat app]. apply IH.
+  - set (d := x :: d'). assert (Hd : d <> []) by discriminate.
+    cbn [flatP flatD]. change (set_all i (d :: r) dense) with
+      (set_all (i + 1) r (list_set dense (N.to_nat i) (N.of_nat (length d)))).
+    clearbody d. destruct (flatP r) as [|q rp] eqn:EP.
+    + pose proof (flatPD_length r (i + 1)) as L. rewrite EP in L.
+      destruct (flatD (i + 1) r) as [|? ?]; [|discriminate]. rewrite !app_nil_r.
+      rewrite scan_last, finish_one, set_all_empty by assumption. reflexivity.
+    + pose proof (flatP_head r q rp EP) as ->.
+      pose proof (flatPD_length r (i + 1)) as L. rewrite EP in L.
+      destruct (flatD (i + 1) r) as [|j rd] eqn:ED; [discriminate|].
+      rewrite scan_doc by exact Hd. rewrite finish_app by discriminate.
+      rewrite <- (IH (i + 1)). rewrite ED. reflexivity.
+Qed.
+
+Lemma list_set_app : forall pre x rest v, list_set (pre ++ x :: rest) (length pre) v = pre ++ v :: rest.
+Proof. induction pre as [|a pre IH]; intros x rest v; [reflexivity|]. cbn [app length list_set]. now rewrite IH. Qed.
+
+Lemma set_all_zeros : forall docs i pre, N.to_nat i = length pre ->
+  set_all i docs (pre ++ repeat 0 (length docs)) = pre ++ lens_spec docs.
+Proof.
+  induction docs as [|d r IH]; intros i pre Hi; [reflexivity|].
+  cbn [set_all length repeat lens_spec map]. fold (lens_spec r).
+  assert (E : forall v, pre ++ v :: lens_spec r = (pre ++ [v]) ++ lens_spec r) by (intro; now rewrite <- app_assoc).
+  destruct d as [|x d'].
+  - cbn [length]. change (N.of_nat 0) with 0. rewrite E, <- (IH (i + 1) (pre ++ [0])).
+    + now rewrite <- app_assoc.
+    + rewrite app_length. cbn [length]. lia.
+  - rewrite Hi, list_set_app, E, <- (IH (i + 1) (pre ++ [N.of_nat (length (x :: d'))])).
+    + now rewrite <- app_assoc.
+    + rewrite app_length. cbn [length]. lia.
+Qed.
+
+Theorem doc_lens_correct beg docs :
+  compute_doc_lens (map t_posn (gather false beg docs)) (map (fun x => t_doc x - beg) (gather false beg docs)) (length docs)
+  = lens_spec docs.
+Proof.
+  rewrite gather_P. pose proof (gather_D beg docs 0) as E. rewrite N.add_0_r in E. rewrite E.
+  rewrite compute_doc_lens_finish, cdl_correct. apply (set_all_zeros docs 0 []). reflexivity.
+Qed.
+
+(* ================= 9. build_batch ================= *)
+Lemma lens_no_overflow docs : short_docs docs -> existsb (fun n => MAX_POSN <? n) (lens_spec docs) = false.
+Proof.
+  induction 1 as [|d r Hd _ IH]; [reflexivity|]. cbn [lens_spec map existsb]. fold (lens_spec r). rewrite IH.
+  rewrite MAX_POSN_val. replace (262143 <? N.of_nat (length d)) with false; [reflexivity|].
+  symmetry. apply N.ltb_ge. exact Hd.
+Qed.
+
+Theorem build_batch_correct beg docs : short_docs docs -> beg + N.of_nat (length docs) <= 2 ^ 28 ->
+  exists ts, Sorted N.lt ts /\ (forall t, In t ts <-> In t (concat docs)) /\
+    build_batch false beg docs = AOk {| b_posts := batch_posts beg docs ts; b_lens := lens_spec docs |}.
+Proof.
+  intros Hs Hn. destruct (batch_posts_gen beg docs Hs Hn) as (ts & K & Hkeys & nb & EB & SL). cbn zeta in *.
+  exists ts. split; [exact K|]. split; [exact Hkeys|].
+  unfold build_batch. rewrite EB. cbn [lift abind]. rewrite SL, doc_lens_correct, lens_no_overflow by exact Hs.
+  reflexivity.
+Qed.
